@@ -16,7 +16,7 @@ class StepBudgetExceeded(BaseException):
 
 
 class StepClock(object):
-    def __init__(self, cap=50_000_000):
+    def __init__(self, cap=30_000_000):
         self.mon = sys.monitoring
         self.steps = 0
         self.depth = 0
